@@ -364,15 +364,6 @@ def check_ensemble(case, ctx):
     i0 = np.flatnonzero((hkl == 0).all(axis=1))
     others = np.delete(arr, i0, axis=-1)
     ctx.nontrivial(many and bool(others.size and others.max() > 1e-3))
-    dev = np.abs(arr.sum(axis=-1) - 1.0)
-    # for these cells (c along z) an untilted beam has g_z = l / c
-    has_gz = bool(np.any(np.array([a for r in rot[1::2] for a in np.ravel(r)], float) != 0) or np.any(hkl[:, 2] != 0))
-    ctx.label("some g_z != 0" if has_gz else "all g_z = 0")
-    if not dev.max() <= 1e-4:
-        raise Violation(
-            f"eager ensemble intensities sum to 1 + {dev.max():.3e} for some member/thickness for {case}",
-            ("ensemble", "not_one", "gz" if has_gz else "gz=0"),
-        )
     lazy = np.asarray(ens.calculate_diffraction_patterns(tl, lazy=True).compute().array, float)
     if lazy.shape != arr.shape or not float(np.abs(lazy - arr).max()) <= 1e-10:
         raise Violation(
@@ -396,11 +387,21 @@ def check_ensemble(case, ctx):
         member = arr[idx]
         rest = np.delete(member, cols, axis=-1)
         if rest.size and float(np.abs(rest).max()) > 0:
-            # a beam within rounding of the sg_max boundary may be selected differently
-            ctx.skip()
-            continue
+            raise Violation(
+                f"ensemble member {idx} has intensity in beams that the separately rotated crystal does not retain for {case}",
+                ("ensemble", "member_extra_beams"),
+            )
         if not float(np.abs(member[:, cols] - ref).max()) <= 1e-6:  # the ensemble array is float32
             raise Violation(
                 f"ensemble member {idx} differs from the separately rotated crystal by {float(np.abs(member[:, cols] - ref).max()):.3e} for {case}",
                 ("ensemble", "member_vs_scalar"),
             )
+    dev = np.abs(arr.sum(axis=-1) - 1.0)
+    # for these cells (c along z) an untilted beam has g_z = l / c
+    has_gz = bool(np.any(np.array([a for r in rot[1::2] for a in np.ravel(r)], float) != 0) or np.any(hkl[:, 2] != 0))
+    ctx.label("some g_z != 0" if has_gz else "all g_z = 0")
+    if not dev.max() <= 1e-4:
+        raise Violation(
+            f"eager ensemble intensities sum to 1 + {dev.max():.3e} for some member/thickness for {case}",
+            ("ensemble", "not_one", "gz" if has_gz else "gz=0"),
+        )
